@@ -6,7 +6,7 @@ import itertools
 import os
 import vlib
 
-PROOFS = ["MgProof.C13.Lemmas", "MgProof.C13.LemmasPoll", "MgProof.C13.LemmasSelect",
+PROOFS = ["MgProof.C13.Lemmas", "MgProof.C13.LemmasTrace", "MgProof.C13.LemmasPoll", "MgProof.C13.LemmasSelect",
           "MgProof.C13.LemmasEpoll", "MgProof.C13.Props"]
 GREP = ["MgModel/C13", "MgProof/C13", "Drv/C13.lean"]
 REPO_SRCS = ["muggle/c/event/event_loop.c", "muggle/c/event/internal/event_loop_epoll.c",
@@ -243,7 +243,7 @@ def gen_cases(ctx):
 # property-level oracle on the implementation's own output
 # ---------------------------------------------------------------------------
 
-def lifecycle_violation(trace):
+def lifecycle_violation(trace, level=True):
     """life-cycle clauses checked directly on one implementation trace"""
     toks = trace.split()
     added, closed, cleared = set(), set(), set()
@@ -273,6 +273,8 @@ def lifecycle_violation(trace):
             cleared.add(c)
         elif t == "E":
             exited = True
+        elif t == "S!" and level:
+            return "loop sleeps while a registered context has pending input"
         elif t == "W" and cleared:
             return "cb_wake after clear phase"
         elif t.startswith("!") or t == "F":
@@ -289,7 +291,10 @@ def judge(ops, out):
     runs = [o for o, l in zip(ops, out) if o.startswith("run ")]
     for o, l in zip(ops, out):
         if o.startswith("run ") and " ; " in l:
-            v = lifecycle_violation(l.split(" ; ")[0])
+            # clause 2 holds unconditionally for the level-triggered back-ends; for epoll only
+            # when the read callbacks drain and the batch is not truncated (classes P, Q)
+            lvl = o != "run epoll" or ops[-1] in ("agree P", "agree Q")
+            v = lifecycle_violation(l.split(" ; ")[0], lvl)
             if v:
                 return "%s: %s" % (o, v)
             if "!" in l.split(" ; ")[1]:
